@@ -126,6 +126,24 @@ fn type_def() -> impl Strategy<Value = TypeDef> {
         .prop_map(|(shape, generic)| TypeDef { shape, generic })
 }
 
+/// Every third variant (of any kind) carries a forwarded serde attribute of its own.
+fn variant_attr(k: usize) -> String {
+    if k % 3 == 1 {
+        format!("#[convert_save_load_attr(serde(rename = \"w{}\"))] ", k)
+    } else {
+        String::new()
+    }
+}
+
+/// Name of variant k in the serialised form.
+fn variant_name(k: usize) -> String {
+    if k % 3 == 1 {
+        format!("w{}", k)
+    } else {
+        format!("V{}", k)
+    }
+}
+
 fn comp_def() -> impl Strategy<Value = CompDef> {
     (0u8..8, 0u8..5, 0u8..3, 0u8..4).prop_map(|(storage, form, shape, trailing_attrs)| CompDef { storage, form, shape, trailing_attrs })
 }
@@ -348,15 +366,15 @@ fn print_type(out: &mut String, i: usize, t: &NType) {
             for (k, v) in vs.iter().enumerate() {
                 match v {
                     Var::Unit => {
-                        let _ = writeln!(out, "    V{},", k);
+                        let _ = writeln!(out, "    {}V{},", variant_attr(k), k);
                     }
                     Var::Tuple(fs) => {
                         let body: Vec<String> = fs.iter().map(|f| format!("{}{}", attrs(f), ty_name(f, "E"))).collect();
-                        let _ = writeln!(out, "    V{}({}),", k, body.join(", "));
+                        let _ = writeln!(out, "    {}V{}({}),", variant_attr(k), k, body.join(", "));
                     }
                     Var::Named(fs) => {
                         let body: Vec<String> = fs.iter().enumerate().map(|(n, f)| format!("{}f{}: {}", attrs(f).replace("RENAMED", &format!("r{}", n)), n, ty_name(f, "E"))).collect();
-                        let _ = writeln!(out, "    V{} {{ {} }},", k, body.join(", "));
+                        let _ = writeln!(out, "    {}V{} {{ {} }},", variant_attr(k), k, body.join(", "));
                     }
                 }
             }
@@ -436,15 +454,15 @@ fn print_type(out: &mut String, i: usize, t: &NType) {
                 for (k, v) in vs.iter().enumerate() {
                     match v {
                         Var::Unit => {
-                            let _ = writeln!(out, "        T{}::V{} => json!(\"V{}\"),", i, k, k);
+                            let _ = writeln!(out, "        T{}::V{} => json!(\"{}\"),", i, k, variant_name(k));
                         }
                         Var::Tuple(fs) => {
                             let binds: Vec<String> = (0..fs.len()).map(|n| format!("x{}", n)).collect();
-                            let _ = writeln!(out, "        T{}::V{}({}) => Value::Object(vec![(\"V{}\".to_string(), {})].into_iter().collect()),", i, k, binds.join(", "), k, seq(fs, &|n| format!("x{}", n)));
+                            let _ = writeln!(out, "        T{}::V{}({}) => Value::Object(vec![(\"{}\".to_string(), {})].into_iter().collect()),", i, k, binds.join(", "), variant_name(k), seq(fs, &|n| format!("x{}", n)));
                         }
                         Var::Named(fs) => {
                             let binds: Vec<String> = (0..fs.len()).map(|n| format!("f{}: x{}", n, n)).collect();
-                            let _ = writeln!(out, "        T{}::V{} {{ {} }} => Value::Object(vec![(\"V{}\".to_string(), {})].into_iter().collect()),", i, k, binds.join(", "), k, obj(fs, &|n| format!("x{}", n)));
+                            let _ = writeln!(out, "        T{}::V{} {{ {} }} => Value::Object(vec![(\"{}\".to_string(), {})].into_iter().collect()),", i, k, binds.join(", "), variant_name(k), obj(fs, &|n| format!("x{}", n)));
                         }
                     }
                 }
